@@ -162,6 +162,35 @@ def rule_partition(ctx):
     arms = set(int(x) for x in re.findall(r"AS dst_step, (\d+) AS kind", blk))
     exp_arms = {kinds[k] for k in ("ROOT_FILE", "ROOT_RESOURCE", "ROOT_FAILED", "ROOT_DEFERRED", "ROOT_OTHER", "BLOCK_STEP")}
     ctx.check(arms == exp_arms, "pending._INSERT_PEND_BLOCKER", "one candidate arm per kind except RUNNABLE", f"arms {sorted(arms)} expected {sorted(exp_arms)}", "all kinds")
+    # sibling agreement: the seed statement of a root kind and the candidate arm of that kind select the same
+    # (step, root) pairs -- a step seeded under a root it is not primarily blocked by (or the reverse) is shown
+    # under one cause and counted under another
+    blk_nc = _norm(re.sub(r"--[^\n]*", "", ctx.prog.fold("pending", "_INSERT_PEND_BLOCKER")))
+    m0 = re.search(r"AS rn FROM \( (?=SELECT)", blk_nc)
+    if not m0:
+        raise AnalysisError("_INSERT_PEND_BLOCKER: candidate arms not found")
+    inner = blk_nc[m0.end():]
+    arm_texts = [a.strip() for a in re.split(r"\bUNION ALL\b", inner)]
+    arm_tail = {}
+    for a in arm_texts:
+        m = re.search(r"AS dst_step, (\d+) AS kind", a)
+        if m and " FROM " in a:
+            tail = a[a.index(" FROM ") + 1:]
+            tail = re.sub(r"\)\s*\)\s*WHERE rn = 1$", "", tail).strip()
+            arm_tail.setdefault(int(m.group(1)), []).append(tail)
+    for kname, seed_name in (("ROOT_FILE", "_INSERT_PEND_SEED_FILE"), ("ROOT_RESOURCE", "_INSERT_PEND_SEED_RESOURCE")):
+        seed = _norm(re.sub(r"--[^\n]*", "", ctx.prog.fold("pending", seed_name)))
+        if " FROM " not in seed:
+            raise AnalysisError(f"{seed_name}: no FROM clause")
+        seed_tail = seed[seed.index(" FROM ") + 1:].strip()
+        tails = arm_tail.get(kinds[kname], [])
+        ctx.check(tails == [seed_tail], f"pending.{seed_name}", f"{kname}: seed rows and candidate arm select the same (step, root) pairs",
+                  f"the {kname} arm of _INSERT_PEND_BLOCKER selects [{'; '.join(tails)[:300]}] but the seed selects [{seed_tail[:300]}]: a step is attributed to a cause that does not block it", "same FROM/JOIN/WHERE")
+    unsat = "avail.name IS NULL OR avail.units < req.units"
+    for name in ("_INSERT_PEND_RESOURCE", "_INSERT_PEND_SEED_RESOURCE"):
+        txt = _norm(ctx.prog.fold("pending", name))
+        ctx.check(unsat in txt and "LEFT JOIN available_resource AS avail ON avail.name = req.name" in txt, f"pending.{name}", "a resource blocks a step only when that step's own request is undefined or exceeds the limit",
+                  "the per-request unsatisfiability test is gone: a step whose request fits is reported as blocked by the resource", "per-request test")
     att = _norm(ctx.prog.fold("pending", "_INSERT_PEND_ATTRIBUTED"))
     ctx.check(f"FROM pend_blocker WHERE kind != {kinds['BLOCK_STEP']}" in att and f"pend_blocker.kind = {kinds['BLOCK_STEP']} AND pend_blocker.src = walk.i" in att, "pending._INSERT_PEND_ATTRIBUTED", "walk seeds at root kinds and follows BLOCK_STEP edges", "attribution walk changed", "ok")
     # every root kind consumed exactly once
@@ -214,7 +243,33 @@ RULES = [
     Rule("R-C19-4", "scratch tables", rule_scratch, min_instances=3),
 ]
 
+def _resource_arm_drop(s):
+    old = """        JOIN pend_resource AS pr ON pr.name = req.name
+        LEFT JOIN available_resource AS avail ON avail.name = req.name
+        WHERE req.node IN (SELECT i FROM pend_step)
+          AND (avail.name IS NULL OR avail.units < req.units)
+"""
+    new = """        JOIN pend_resource AS pr ON pr.name = req.name
+        WHERE req.node IN (SELECT i FROM pend_step)
+"""
+    return s.replace(old, new, 1) if old in s else None
+
+
+def _resource_seed_drop(s):
+    old = """JOIN pend_resource AS pr ON pr.name = req.name
+LEFT JOIN available_resource AS avail ON avail.name = req.name
+WHERE req.node IN (SELECT i FROM pend_step)
+  AND (avail.name IS NULL OR avail.units < req.units)
+"""
+    new = """JOIN pend_resource AS pr ON pr.name = req.name
+WHERE req.node IN (SELECT i FROM pend_step)
+"""
+    return s.replace(old, new, 1) if old in s else None
+
+
 MUTANTS = [
+    Mutant("resource-arm-any-request", "pending.py", _resource_arm_drop, ("R-C19-3",)),
+    Mutant("resource-seed-any-request", "pending.py", _resource_seed_drop, ("R-C19-3",)),
     Mutant("serve-invalid-target-zero", "director.py", in_function("serve", replace_once("return ServeResult(returncode=ReturnCode.FAILED, usage_report=\"\", usage_summary=\"\")", "return ServeResult(returncode=ReturnCode(0), usage_report=\"\", usage_summary=\"\")")), ("R-C19-1",)),
     Mutant("default-zero", "builder.py", replace_once("returncode: ReturnCode = attrs.field(init=False, default=ReturnCode.PENDING)", "returncode: ReturnCode = attrs.field(init=False, default=ReturnCode(0))"), ("R-C19-1",)),
     Mutant("pending-before-drain", "finalize.py", in_function("report_unbuilt", lambda s: s.replace("    returncode |= await _report_pending_steps(workflow, reporter)\n", "", 1).replace("    if scheduler.draining:\n", "    returncode |= await _report_pending_steps(workflow, reporter)\n    if scheduler.draining:\n", 1) if "    if scheduler.draining:\n" in s else None), ("R-C19-2",)),
